@@ -48,7 +48,8 @@ CFG = {
             "*geom.Bounds} x phases {grow->drain to empty->refill, alternate insert/delete at the capacity boundary, delete "
             "everything inside a region (a whole subtree) then refill, random mix, duplicates of few objects, deletes of absent "
             "objects in every state} over pools with coincident boxes, degenerate boxes, clusters, lines, half-integer coordinates; "
-            "query batch: whole plane, point at a corner, touching corner/edge, one unit off, line, disjoint, an object's own box, random. "
+            "a NON-DYADIC family (coordinates float64(k)/d, d in {10,7,3}, touching = bit-equal floats; judged by the Spec only, no structural "
+            "diff, class *specOnly*); coordinate units 2^-10 .. 2^400; query batch: whole plane, point at a corner, touching corner/edge, one unit off, line, disjoint, an object's own box, random. "
             "One case = one history (every step judged); distinct = distinct history line; class = phase-kind-params-max height reached",
     "timeout": {"quick": 900, "thorough": 3000},
     "explanation": "SPEC verdicts are computed from Spec.lean on the implementation's own dump and answers (wfNode, Size, stored "
